@@ -20,17 +20,20 @@ core is a power of two (then every double operation on the grid is exact; a rela
 otherwise and Ideal_Cyc, an `int()` of a quotient, +-1).  Tolerant fields (printed after `round(·, 4)`):
 Frac_Time, Frac_Ideal, PT_Util, Ideal_Time: |d - q| <= 5e-5 + 1e-12·|q|.
 
-Two candidate defects were found while building this check (reported, not patched, not in
-known_findings.json yet).  Their trigger inputs are generated / judged by the oracle only when
-`C11_UNCATEGORISED=1` / `C11_EMPTY_TABLE=1` is set or known_findings.json lists the classifier as open:
-* `util-uncategorised-row-double-count`: a kernel row without `-opCat`/`-NA` suffix (or with category
-  literally `Total`) gets the category `Total` from `_handle_category` and is then counted twice in the
-  Total row, which no longer equals the sum of the category rows.  Such rows are always generated for the
-  model comparison (the model reproduces the quirk; Lean witness `total_double_counts_uncategorised`).
+Two defects found while building this check are repaired in /repo (4ba5a45, 3b111fa) and their trigger
+inputs are part of the default generator domain, so a relapse is a VIOLATION with a replay:
 * `util-degenerate-table-crash`: a table without a single parsed kernel row (empty, or only ignored rows)
-  or whose entries are all zero makes `RCUTableFingerprint.similarity` divide by zero: the context is
-  registered with two stages, so `drain` runs `update_fprint_matches` twice and the second time compares
-  the table fingerprint (0 items / 0.0 total time) with itself.
+  or whose entries are all zero used to make `RCUTableFingerprint.similarity` divide by zero at the second
+  drain of the shared context; now the run completes and every kernel is counted under `other` / its
+  category with zero ideal time.
+* `util-uncategorised-row-double-count`: a kernel row without `-opCat`/`-NA` suffix used to get the
+  category `Total` and was counted twice in the Total row; it is now filed under `NotAvailable`.
+A category that is literally `Total` (`<kernel>-opCatTotal`) clashes with the name of the summary row and
+is outside the domain: such logs are still generated and compared with the model (which reproduces the
+double count, Lean witness `total_double_counts_literal_total_category`), but the oracle does not
+evaluate its CSV clauses on them.
+Multi-rank runs share the one table: every rank section of the CSV is compared with the recomputation
+from that rank's own exported slices (grid of 2-rank pairs + random 1-3 rank cases).
 """
 from __future__ import annotations
 
@@ -54,19 +57,24 @@ THEOREMS = [
     "AiuVerif.C11.table_lookup_spec",
     "AiuVerif.C11.counter_pair",
     "AiuVerif.C11.each_kernel_counted_once",
-    "AiuVerif.C11.total_is_sum_of_categories_partial",
-    "AiuVerif.C11.total_double_counts_uncategorised",
-    "AiuVerif.C11.csv_total_is_sum_partial",
+    "AiuVerif.C11.total_is_sum_of_categories",
+    "AiuVerif.C11.total_is_sum_of_slice_categories",
+    "AiuVerif.C11.total_double_counts_literal_total_category",
+    "AiuVerif.C11.uncategorised_row_counted_once",
+    "AiuVerif.C11.old_handle_category_double_counts",
+    "AiuVerif.C11.csv_total_is_sum",
     "AiuVerif.C11.ratios",
     "AiuVerif.C11.ideal_cycles_exact",
     "AiuVerif.C11.no_stats_zero_counter",
     "AiuVerif.C11.pt_active_tiny_dur",
     "AiuVerif.C11.csv_rows_are_rank_tables",
 ]
-RULE = ("e2e cases: (a) exhaustive grid: every combination of 6 log-row variants for kernel A x 6 for kernel B "
-        "(absent, zero cycles, cycles with category X, cycles with category Y, -NA, ignored row) x every sequence of "
-        "<= 2 slices over {A at 1/4, A at exactly 100 %, A over 100 %, B}; (b) random: 0-12 log rows (duplicates, zero "
-        "entries, ignored rows, noise, phase marker), 1-3 ranks x 0-10 kernel slices, soc in {256,512,1024}, core in "
+RULE = ("e2e cases: (a) exhaustive grid: every combination of 7 log-row variants for kernel A x 7 for kernel B "
+        "(absent, zero cycles, cycles with category X, cycles with category Y, -NA, ignored row, row without suffix; "
+        "this includes the tables without kernel rows / with only zero entries) x every sequence of "
+        "<= 2 slices over {A at 1/4, A at exactly 100 %, A over 100 %, B}, plus every ordered pair (and 27 triples) of "
+        "rank sequences for 2 (3) ranks sharing one table; (b) random: 0-12 log rows (duplicates, zero "
+        "entries, ignored rows, rows without suffix, literal Total category, noise, phase marker), 1-3 ranks x 0-10 kernel slices, soc in {256,512,1024}, core in "
         "{512,1024,2048,1100,800}, option sets incl. -t. Non-trivial: at least one kernel slice is listed with "
         "non-zero cycles (pt_active produced); distinct = distinct case spec")
 TRUSTED = [
@@ -84,9 +92,11 @@ ASSUMPTIONS = [
     "the clause 'kernels with zero or unknown ideal cycles get neither' holds only when calculate_stats is registered "
     "(default); with -t a zero-valued start counter is exported (Lean: no_stats_zero_counter); -t is outside the "
     "property's quantifier and the oracle does not apply this clause there",
-    "a kernel row without -opCat/-NA suffix is given the category 'Total' and is double counted in the Total row "
-    "(candidate defect, reported; Lean witness total_double_counts_uncategorised); theorems about Total carry the "
-    "hypothesis that no slice falls into the category 'Total'",
+    "a log category that is literally 'Total' clashes with the summary row (the slice is counted twice in Total; Lean "
+    "witness total_double_counts_literal_total_category): outside the domain; theorems about Total carry the "
+    "hypothesis NoTotalCategory, the oracle skips its CSV clauses on such logs, the model comparison covers them",
+    "rows without -opCat/-NA suffix are filed under NotAvailable (since /repo 3b111fa; Lean regression sentinel "
+    "old_handle_category_double_counts about the old definition); degenerate tables run (since /repo 4ba5a45)",
     "a kernel listed several times with different cycles/categories is ambiguous in the statement: the first row wins "
     "(first non-zero for the cycles); generated, compared with the model, skipped by the oracle",
     "the per-slice category written to event['cat'] is overwritten by tb_refinement_lightweight and is not observable",
@@ -102,7 +112,8 @@ LEVEL_TEXT = ("Lean theorems over an executable model of compute_utilization / m
               "tables, kernel sequences and core frequencies > 0: pt_active = min(1, cycles/core/dur) exactly for "
               "kernels whose first non-zero listing has those cycles and absent otherwise; the counter pair; every "
               "kernel slice is accumulated exactly once into the row of its category; Total = sum of the category rows "
-              "(under the stated no-'Total'-category hypothesis, with a decided witness for its necessity); the ratio "
+              "(for every log without a category literally named 'Total', with a decided witness for that clash and a "
+              "regression sentinel about the old _handle_category); the ratio "
               "columns; Ideal_Cyc is the exact cycle sum. Tied to the code by running the whole CLI pipeline and the "
               "compiled model on the same generated logs and traces.")
 LEVEL_NOTE = ("Trusted: Lean kernel; axioms propext, Classical.choice, Quot.sound; hand-written model validated by "
@@ -157,7 +168,11 @@ def parsed_rows(log):
 
 
 def has_uncategorised(log):
-    return any(r["tag"] == "none" or r["tag"] == "o:Total" for r in parsed_rows(log))
+    return any(r["tag"] == "none" for r in parsed_rows(log))
+
+
+def has_literal_total(log):
+    return any(r["tag"] == "o:Total" for r in parsed_rows(log))
 
 
 def degenerate(log):
@@ -167,13 +182,6 @@ def degenerate(log):
 
 CLS_EMPTY = "util-degenerate-table-crash"
 CLS_UNCAT = "util-uncategorised-row-double-count"
-
-
-def enabled(ctx, env, classifier):
-    """candidate defects found while building this check: the inputs that trigger them are generated (and
-    judged by the oracle) only on request or once known_findings.json lists the classifier as open"""
-    return os.environ.get(env) == "1" or any(k.get("classifier") == classifier and k.get("status") == "open"
-                                             for k in getattr(ctx, "known", []))
 
 
 # ---------------------------------------------------------------------------------------------
@@ -247,7 +255,7 @@ def listing(log):
     """kernel -> (cycles, category, ambiguous) as the log lists it"""
     out = {}
     for r in parsed_rows(log):
-        cat = r["tag"][2:] if r["tag"].startswith("o:") else ("NotAvailable" if r["tag"] == "na" else None)
+        cat = r["tag"][2:] if r["tag"].startswith("o:") else "NotAvailable"     # -NA and rows without suffix
         k = r["kernel"]
         if k not in out:
             out[k] = [r["cycles"], cat, False]
@@ -300,6 +308,8 @@ def oracle(case, res):
         if any(d for (_, _, d) in res["counters"].get(pid, [])):
             return ("util-counter-scratch-dur", f"rank {pid}: an exported PT Active counter still carries 'dur'")
     # categories csv
+    if has_literal_total(case["log"]):
+        return None         # a category literally named Total clashes with the summary row: outside the domain
     rows = res["rows"] or []
     if sorted({r["pid"] for r in rows}) != sorted(per_pid):
         return ("util-csv-ranks", f"csv has ranks {sorted({r['pid'] for r in rows})}, kernel slices are on {sorted(per_pid)}")
@@ -444,6 +454,7 @@ def row_variants(kernel):
         [{"kernel": kernel, "tag": "o:CatY_fp16", "cycles": CYC}],
         [{"kernel": kernel, "tag": "na", "cycles": CYC}],
         [{"kernel": kernel, "tag": "o:CatX", "cycles": CYC, "ignore": "Precompute"}],
+        [{"kernel": kernel, "tag": "none", "cycles": CYC}],
     ]
 
 
@@ -459,6 +470,18 @@ def gen_grid(ctx: Ctx):
                     n += 1
                     yield {"soc": 512, "core": 1024, "argv": [], "dev_epochs": [512 * 7],
                            "log": {"rows": va + vb}, "ranks": [[list(s) for s in seq]]}
+    # two / three ranks sharing the one table: every ordered pair of rank sequences
+    seqs = [[], [GRID_SLICES[0]], [GRID_SLICES[1]], [GRID_SLICES[3]], [GRID_SLICES[0], GRID_SLICES[3]]]
+    log = {"rows": row_variants("kA_1")[2] + row_variants("kB")[3]}
+    for sa in seqs:
+        for sb in seqs:
+            n += 1
+            yield {"soc": 512, "core": 1024, "argv": [], "dev_epochs": [512 * 7, 512 * 1001], "log": log,
+                   "ranks": [[list(x) for x in sa], [list(x) for x in sb]]}
+    for sa, sb, sc in itertools.product(seqs[1:4], repeat=3):
+        n += 1
+        yield {"soc": 512, "core": 1024, "argv": [], "dev_epochs": [512 * 7, 512 * 1001, 512 * 77], "log": log,
+               "ranks": [[list(x) for x in sa], [list(x) for x in sb], [list(x) for x in sc]]}
     ctx.extra["grid_cases"] = n
 
 
@@ -470,7 +493,6 @@ ARGVS = [[], [], [], ["-t"], ["--keep_names"], ["--flow"], ["--disable_tb"], ["-
 
 def rand_case(ctx: Ctx, i):
     rng = ctx.rng
-    unc = enabled(ctx, "C11_UNCATEGORISED", CLS_UNCAT)
     names = rng.sample(KNAMES, rng.randint(1, 6))
     rows = []
     for _ in range(rng.randint(0, 12)):
@@ -485,8 +507,11 @@ def rand_case(ctx: Ctx, i):
                                                              tag="o:" + rng.choice(CATS))
         else:
             tag = "o:" + rng.choice(CATS) if rng.random() < 0.8 else "na"
-            if rng.random() < (0.15 if unc else 0.04):
-                tag = rng.choice(["none", "o:Total"])
+            x2 = rng.random()
+            if x2 < 0.12:
+                tag = "none"
+            elif x2 < 0.15:
+                tag = "o:Total"
             row = {"kernel": k, "tag": tag, "cycles": 0 if rng.random() < 0.2 else 64 * rng.randint(1, 600)}
         if rng.random() < 0.1:
             row["ignore"] = rng.choice(["Precompute", "-LxPreload"])
@@ -508,21 +533,10 @@ def rand_case(ctx: Ctx, i):
 
 
 def gen_cases(ctx: Ctx):
-    empty_ok = enabled(ctx, "C11_EMPTY_TABLE", CLS_EMPTY)
-
-    def in_domain(c):
-        # a table without kernel rows / with only zero entries crashes the run (candidate defect CLS_EMPTY)
-        return empty_ok or not degenerate(c["log"]) or not any(c["ranks"])
-    for c in gen_grid(ctx):
-        if in_domain(c):
-            yield c
+    yield from gen_grid(ctx)
     ctx.extra["exhaustive_grid"] = True
     for i in range(ctx.n(800, 8000)):
-        c = rand_case(ctx, i)
-        if in_domain(c):
-            yield c
-        else:
-            ctx.count("skipped_degenerate_table_case")
+        yield rand_case(ctx, i)
 
 
 # ---------------------------------------------------------------------------------------------
@@ -539,9 +553,9 @@ def oracle_on_case(ctx: Ctx, case, verbose=False):
             ctx.violation("util-run-failed", f"acelyzer failed on a well-formed single-table log: {res['err']}", case)
         return res
     unc = has_uncategorised(case["log"])
-    if unc and not enabled(ctx, "C11_UNCATEGORISED", CLS_UNCAT):
-        ctx.count("oracle_skipped_uncategorised_row")
-        return res
+    ctx.count("logs_with_row_without_suffix", int(unc))
+    ctx.count("logs_degenerate_table", int(degenerate(case["log"])))
+    ctx.count("logs_with_literal_Total_category_csv_oracle_skipped", int(has_literal_total(case["log"])))
     v = oracle(case, res)
     if v:
         ctx.violation(CLS_UNCAT if (unc and v[0] in ("util-csv-total", "util-csv-counted-once")) else v[0], v[1], case)
